@@ -1476,6 +1476,13 @@ _U = 'utils/courier_utils.py'
 _W = 'chainables/courier_worker.py'
 _O = 'chainables/orchestrate.py'
 VARIANTS = [
+    OK('registration-logs-the-number-of-dead-workers', 'utils/courier_utils.py',
+       "    with self._lock:\n      self.data[address] = time_\n    logging.info('chainable: %s', f'registering worker",
+       "    with self._lock:\n      n_dead = sum(1 for v in self.data.values() if v is None)\n      self.data[address] = time_\n    logging.debug('chainable: %s', f'{n_dead} dead workers known')\n    logging.info('chainable: %s', f'registering worker"),
+    OK('stage-names-the-none-test', 'chainables/orchestrate.py',
+       "          if worker is not None:\n            remote_iterator = worker.async_iter(", "          got_worker = worker is not None\n          if got_worker:\n            remote_iterator = worker.async_iter("),
+    OK('acquire-all-nested-instead-of-and', 'chainables/courier_worker.py',
+       "      elif worker.is_available(self) and worker.acquire_by(self):\n        result.append(worker)", "      elif worker.is_available(self):\n        if worker.acquire_by(self):\n          result.append(worker)"),
     B('registration-drops-the-tombstones', 'utils/courier_utils.py',
       "    with self._lock:\n      self.data[address] = time_\n    logging.info('chainable: %s', f'registering worker",
       "    with self._lock:\n      for dead in [k for k, v in self.data.items() if v is None]:\n        del self.data[dead]\n      self.data[address] = time_\n    logging.info('chainable: %s', f'registering worker", 'R-C20-17'),
